@@ -17,7 +17,10 @@ def fmtb(v):
 def case_line(i, c):
     parts = [str(i), c["type"], str(len(c["doms"]))]
     for d in c["doms"]:
-        parts += [fmtb(d["lb"]), fmtb(d["ub"]), "1" if d["int"] else "0"]
+        if d.get("half"):
+            parts += [repr(d["lb"] / 2.0), repr(d["ub"] / 2.0), "0"]
+        else:
+            parts += [fmtb(d["lb"]), fmtb(d["ub"]), "1" if d["int"] else "0"]
     t = c["type"]
     prm = []
     if t in ("Pow", "NumberofConst"):
